@@ -533,8 +533,63 @@ def add_replay(v, r, meta, what, props_counted):
 # ----------------------------------------------------------------------------------------
 # impl -> spec: record traces from the real crate, validate them with TLC (Trace.tla)
 # ----------------------------------------------------------------------------------------
-def run_parallel(jobs, maxpar):
-    """jobs: list of (key, cmd, cwd, env, timeout). Returns {key: (rc, out, timed_out)}"""
+def run_deep(binary, tag, depth=300000):
+    """a chain of `depth` levels in a child process on a 2 MiB stack: every call must return (see harness/src/deep.rs).
+    Returns (summary, findings)."""
+    out = os.path.join(RUN, "deep-%s.phases" % tag)
+    timed_out = False
+    try:
+        rc, o = sh([binary, "deep", "--depth", str(depth), "--out", out], timeout=120)
+    except subprocess.TimeoutExpired:
+        rc, o, timed_out = -1, "", True
+    phases = [l.strip() for l in open(out)] if os.path.exists(out) else []
+    last_call = [p for p in phases if not p.startswith(("WRONG", "PANIC", "done"))]
+    last_call = last_call[-1] if last_call else "build"
+    prop = last_call.split(":")[0] if last_call.split(":")[0].startswith("C") else "C03"
+    fs = []
+    case = {"depth": depth, "phases": phases, "exit": rc, "how": "itverif deep --depth %d (a chain: node i is the only child of node i-1; thread with a 2 MiB stack)" % depth}
+    if timed_out:
+        d = "on a chain of %d levels the call in phase '%s' did not return within 120 s" % (depth, last_call)
+        fs = [{"prop": "C02", "kind": "deep:hang", "detail": d, "case": case}, {"prop": prop, "kind": "deep:hang", "detail": d, "case": case}]
+    elif phases and phases[-1] == "done" and rc == 0:
+        pass
+    elif phases and phases[-1].startswith("WRONG"):
+        fs = [{"prop": prop, "kind": "deep:wrong", "detail": "on a chain of %d levels: %s" % (depth, phases[-1][6:]), "case": case}]
+    elif phases and phases[-1] == "PANIC":
+        d = "on a chain of %d levels the call in phase '%s' panicked" % (depth, last_call)
+        fs = [{"prop": "C05", "kind": "deep:panic", "detail": d, "case": case}] + ([{"prop": prop, "kind": "deep:panic", "detail": d, "case": case}] if prop != "C05" else [])
+    elif rc < 0 or rc in (134, 139):
+        d = "on a chain of %d levels the process was ended by signal %s during phase '%s' (stack use that grows with the depth of the tree): the call does not return" % (depth, -rc if rc < 0 else rc - 128, last_call)
+        fs = [{"prop": "C02", "kind": "deep:abort", "detail": d, "case": case}, {"prop": prop, "kind": "deep:abort", "detail": d, "case": case}]
+    else:
+        raise ToolError("deep harness failed (rc=%s): %s %s" % (rc, o[-1000:], phases[-3:]))
+    return {"depth": depth, "phases_completed": len([p for p in phases if p not in ("done",)]), "exit": rc}, fs
+
+
+def jvm_par(per_jvm_gb=4):
+    """how many TLC processes may run at once: bounded by the memory that is available right now (the box has no swap;
+    several checks may be running at the same time)"""
+    try:
+        avail = [int(l.split()[1]) for l in open("/proc/meminfo") if l.startswith("MemAvailable:")][0] // (1024 * 1024)
+    except Exception:  # noqa
+        avail = 16
+    return max(2, min(NCPU - 2, avail // per_jvm_gb))
+
+
+def run_parallel(jobs, maxpar, retry_killed=False):
+    """jobs: list of (key, cmd, cwd, env, timeout). Returns {key: (rc, out, timed_out)}.
+    retry_killed: a job that was killed by a signal it did not get from here (out-of-memory killer) is run once more, alone."""
+    res = _run_parallel(jobs, maxpar)
+    if retry_killed:
+        for j in jobs:
+            rc, out, to = res[j[0]]
+            if not to and (rc < 0 or rc == 137):
+                time.sleep(5)
+                res.update(_run_parallel([j], 1))
+    return res
+
+
+def _run_parallel(jobs, maxpar):
     res, running, queue = {}, [], list(jobs)
     while queue or running:
         while queue and len(running) < maxpar:
@@ -593,7 +648,7 @@ def run_traces(binary, specs, tag, record_timeout=90, tlc_timeout=3600):
             meta = os.path.join(d, "metac-%02d" % i)
             vjobs.append(("churn-%d" % i, tlc_cmd("ChurnMonitor.tla", os.path.join(SPEC, "ChurnMonitor.cfg"), 1, meta), SPEC,
                           {"TRACE": s["file"], "JAVA_TOOL_OPTIONS": "-Xmx3g -Xss512m -XX:ActiveProcessorCount=2"}, tlc_timeout))
-    val = run_parallel(vjobs, max(2, NCPU - 2))
+    val = run_parallel(vjobs, jvm_par(), retry_killed=True)
     for i, s in enumerate(specs):
         key = "churn-%d" % i
         if key not in val:
